@@ -140,8 +140,8 @@ func TestC01(t *testing.T) {
 func TestC02(t *testing.T) {
 	run(t, spec{
 		id:    "C02",
-		rule:  "same script language as C01 with unequal input lengths (0, 1, many), inputs closing at different times, capacities 0..64; every item is (priority of registration, channel generation, sequence number); oracle: tag equals the registration priority, per-channel sequence numbers arrive in order without gaps or repeats, nothing unknown is delivered, at normal termination every written item of every closed input was delivered (simplified disciplines: each item handled exactly once); non-trivial = at least 2 priorities delivered something and an input was unbuffered or inputs had different lengths, and the run terminated normally; distinct = distinct script JSON",
-		opts:  GenOpts{Vers: []int{1, 2}, Simple: []bool{false, false, true}, Dividers: allDiv, NoZero: true},
+		rule:  "same script language as C01 (including v1 AddInput / RemoveInput: replacement of live and of already drained channels, re-adding) with unequal input lengths (0, 1, many), inputs closing at different times, capacities 0..64; every item is (priority of registration, channel generation, sequence number); oracle: tag equals the registration priority, per-channel sequence numbers arrive in order without gaps or repeats, nothing unknown is delivered, at normal termination every written item of every closed input was delivered (simplified disciplines: each item handled exactly once); non-trivial = at least 2 priorities delivered something and an input was unbuffered or inputs had different lengths, and the run terminated normally; distinct = distinct script JSON",
+		opts:  GenOpts{Vers: []int{1, 2}, Simple: []bool{false, false, true}, Dividers: allDiv, NoZero: true, AddRemove: true},
 		check: CheckC02,
 		skip:  rejected,
 		nontriv: func(s Script, tr Trace) bool {
@@ -242,8 +242,8 @@ func TestC06(t *testing.T) {
 func TestC07(t *testing.T) {
 	run(t, spec{
 		id:    "C07",
-		rule:  "scripts with all close orders, releases withheld across time steps, inputs left open and silent, v1 GracefulStop issued early / in the middle / late, plain and simplified; oracle: termination observed (Output()/Err() closed, GracefulStop returned) implies every input closed and delivered and nothing unreleased (no Handle running), no Release() panics, Err() yields no error, and at a quiescent point where that condition holds termination has happened; non-trivial = a release or a close was withheld across a time step or drain, or an input stayed open and idle while everything else was finished; distinct = distinct script JSON",
-		opts:  GenOpts{Vers: []int{1, 2}, Simple: []bool{false, false, true}, Dividers: libDiv, NoZero: true},
+		rule:  "scripts with all close orders (v1: also inputs removed or replaced instead of closed, with their items still in flight), releases withheld across time steps, inputs left open and silent, v1 GracefulStop issued early / in the middle / late, plain and simplified; oracle: termination observed (Output()/Err() closed, GracefulStop returned) implies every input closed and delivered and nothing unreleased (no Handle running), no Release() panics, Err() yields no error, and at a quiescent point where that condition holds termination has happened; non-trivial = a release or a close was withheld across a time step or drain, or an input stayed open and idle while everything else was finished; distinct = distinct script JSON",
+		opts:  GenOpts{Vers: []int{1, 2}, Simple: []bool{false, false, true}, Dividers: libDiv, NoZero: true, AddRemove: true},
 		check: CheckC07,
 		skip: func(s Script, tr Trace) string {
 			if tr.NewErr != "" {
